@@ -11,7 +11,7 @@ from gvsim.sim import Client, Raised, Sim, sut
 
 PROP = 'C04'
 TIERS = {'quick': {'runs': 1600, 'wall': 100}, 'thorough': {'runs': 40000, 'wall': 1500}}
-REACH = ['read_before_reset', 'repeated_read', 'step_without_read', 'reset_mid_episode', 'outer_state_read', 'bad_action_outside', 'reseed_gv', 'lookahead_from_live_state_object', 'lookahead_actuates']  # probes / faults that must fire in every batch (reach gaps are reported in the evidence)
+REACH = ['read_before_reset', 'repeated_read', 'step_without_read', 'reset_mid_episode', 'outer_state_read', 'bad_action_outside', 'reseed_gv', 'lookahead_from_live_state_object', 'lookahead_actuates', 'outer_representation_reassigned']  # probes / faults that must fire in every batch (reach gaps are reported in the evidence)
 RULE = ('one run = 1-3 clients (shipped configurations and random compositions, stochastic_raytracing included so that '
         'an extra observation computation shows up as generator drift), each paired with a twin environment that is '
         'only ever used through the functional interface (M-env); seeded interleaved op lists with arbitrary patterns '
@@ -76,6 +76,11 @@ def generate(seed, run, tier):
                 ops.extend(_fault(r, c))
         elif m < 0.93:
             ops.append([c, 'set_seed', W.gen_seed(r)])
+        elif m < 0.945:
+            # the representation objects of the outer environment are public attributes (the gym layer re-assigns them)
+            ops.append([c, 'outer_switch', r.choice(['state', 'observation']), r.choice(['default', 'no-overlap', 'compact'])])
+            if r.random() < 0.8:
+                ops.append([c, 'outer_read'])
         elif m < 0.965:
             # a planner uses the functional interface of the same environment object between stateful calls
             ops.append([c, 'lookahead', r.randrange(64), r.randrange(64), r.choice(['step', 'obs', 'both'])])
@@ -305,6 +310,22 @@ class MirrorSim(Sim):
                 return
             self.ctx.probe('outer_state_read')
         self.lockstep(cl, 'outer_read')
+
+    def op_outer_switch(self, cl, which, name):
+        from gym_gridverse.representations.observation_representations import make_observation_representation
+        from gym_gridverse.representations.state_representations import make_state_representation
+
+        mk, space = ((make_state_representation, cl.env.state_space) if which == 'state' else (make_observation_representation, cl.env.observation_space))
+        theirs, mine = sut(mk, name, space), sut(mk, name, space)
+        if isinstance(theirs, Raised) or isinstance(mine, Raised):
+            return
+        setattr(cl.outer, which + '_representation', theirs)
+        if which == 'state':
+            cl.srep = mine
+        else:
+            cl.orep = mine
+        cl.spec['outer'] = cl.spec.get('outer', 'default')  # (site names keep the construction-time name)
+        self.ctx.fault('outer_representation_reassigned')
 
     def op_lookahead(self, cl, i, k, what):
         """functional calls on the real environment (and, to stay in generator lock-step, on the twin)"""
